@@ -330,7 +330,7 @@ Proof.
     [|gtriv Eop|gtriv Eop].
   cbn [rres_bind].
   assert (GG : ~ In newn (s_applied s) ->
-              G (fst (transact op (opts CAllow true false false true false) (rename_patch oldn newn) MOp))).
+              G (fst (transact op (opts CAllow (w_apc (op_world op)) false false true false) (rename_patch oldn newn) MOp))).
   { intros Hn. eapply Gtx; [exact Eop|discriminate|reflexivity|]. intros t0 H0 Hh0 E0.
     apply rename_inv; [exact H0|exact Hh0| |]; subst t0; cbn [begin_txn t_applied t_updated up_get].
     - exact Hn.
